@@ -2,6 +2,7 @@ package uasc
 
 import (
 	"context"
+	"encoding/binary"
 
 	"github.com/gopcua/opcua/ua"
 	"github.com/gopcua/opcua/uacp"
@@ -61,4 +62,64 @@ func VerifH_C06_SendLimits() {
 		vfAssert(err == nil && vfTCPWrites(snd.tcp) == k, "a message within the peer's limits is not sent")
 		vfReach("sent")
 	}
+}
+
+// After the secure channel is opened, each side sizes its outgoing chunks by its own send
+// buffer (= what the peer can receive after the negotiation), for asymmetric buffer settings.
+// Server: the real Receive handles an OpenSecureChannel request (handleOpenSecureChannelRequest),
+// then a large response is sent. Client: the real handleOpenSecureChannelResponse, then a large request.
+func VerifH_C06_ChunkSizeAfterOpen() {
+	vfOpaqueAlloc(true)
+	recvBuf, sendBuf := vfU32("recvBuf"), vfU32("sendBuf")
+	vfAssume(recvBuf >= 8192 && recvBuf <= 1<<20 && sendBuf >= 8192 && sendBuf <= 1<<20)
+	ack := &uacp.Acknowledge{ReceiveBufSize: recvBuf, SendBufSize: sendBuf, MaxChunkCount: 64, MaxMessageSize: 1 << 24}
+	bodyLen := vfInt("bodyLen", 0, 3<<20)
+	if vfBool("serverSide") {
+		req := &ua.OpenSecureChannelRequest{RequestHeader: &ua.RequestHeader{AuthenticationToken: ua.NewTwoByteNodeID(0), RequestHandle: 1}, RequestType: ua.SecurityTokenRequestTypeIssue,
+			SecurityMode: ua.MessageSecurityModeNone, RequestedLifetime: 60000}
+		plain, _ := ua.Encode(req)
+		typeID, _ := ua.Encode(ua.NewFourByteExpandedNodeID(0, 446))
+		sec, _ := NewAsymmetricSecurityHeader(ua.SecurityPolicyURINone, nil, nil).Encode()
+		body := append(append(append([]byte{}, sec...), make([]byte, 8)...), append(typeID, plain...)...)
+		binary.LittleEndian.PutUint32(body[len(sec):], 1)   // sequence number
+		binary.LittleEndian.PutUint32(body[len(sec)+4:], 1) // request id
+		frame := make([]byte, 12)
+		copy(frame, "OPNF")
+		frame = append(frame, body...)
+		binary.LittleEndian.PutUint32(frame[4:], uint32(len(frame)))
+		tcp := vfTCP("srv", frame)
+		conn, _ := uacp.NewConn(tcp, ack)
+		cfg := &Config{SecurityPolicyURI: ua.SecurityPolicyURINone, SecurityMode: ua.MessageSecurityModeNone, Lifetime: 3600000}
+		errs := make(chan error, 4)
+		ssc, err := NewServerSecureChannel("", conn, cfg, errs, 7, 3, 9)
+		vfAssert(err == nil && ssc != nil, "NewServerSecureChannel fails")
+		msg := ssc.Receive(context.Background())
+		vfAssert(msg != nil && msg.Err == nil, "a valid OpenSecureChannel request is rejected")
+		if msg == nil || msg.Err != nil {
+			return
+		}
+		opened := vfTCPWrites(tcp)
+		vfAssert(opened == 1, "no OpenSecureChannel response was sent")
+		err = ssc.SendResponseWithContext(context.Background(), 2, vfC07Resp(vfOpaqueBytes("body", bodyLen)))
+		vfAssert(err == nil, "sending a response fails")
+		for i := opened; i < vfTCPWrites(tcp); i++ {
+			vfAssert(vfTCPWriteLen(tcp, i) <= int(sendBuf), "server: a chunk exceeds the send buffer negotiated for this connection")
+		}
+		vfReach("server")
+		return
+	}
+	e := vfNewEnd("cli", client, -1, ua.MessageSecurityModeNone, nil, nil, ack, nil, 5, 9, 1)
+	inst := newChannelInstance(e.sc)
+	e.sc.openingInstance = inst
+	resp := &ua.OpenSecureChannelResponse{ResponseHeader: &ua.ResponseHeader{}, SecurityToken: &ua.ChannelSecurityToken{ChannelID: 5, TokenID: 10, RevisedLifetime: 60000}}
+	e.sc.cfg.Lifetime = 60000
+	close(e.sc.closing)
+	err := e.sc.handleOpenSecureChannelResponse(resp, nil, inst)
+	vfAssert(err == nil, "handleOpenSecureChannelResponse fails")
+	err = e.sc.SendMsgWithContext(context.Background(), nil, 3, vfC07Resp(vfOpaqueBytes("body", bodyLen)))
+	vfAssert(err == nil, "sending fails")
+	for i := 0; i < vfTCPWrites(e.tcp); i++ {
+		vfAssert(vfTCPWriteLen(e.tcp, i) <= int(sendBuf), "client: a chunk exceeds the send buffer negotiated for this connection")
+	}
+	vfReach("client")
 }
